@@ -43,6 +43,14 @@ impl CidPrefix {
         let (multihash_code, rest) = unsigned_varint::decode::u64(rest).ok()?;
         let (multihash_size, _rest) = unsigned_varint::decode::usize(rest).ok()?;
 
+        // CIDv0 can only be a dag-pb with sha2-256 multihash, everything else
+        // can not be turned into a CID later on.
+        if version == Version::V0
+            && (codec != DAG_PB || multihash_code != SHA2_256 || multihash_size != SHA2_256_SIZE)
+        {
+            return None;
+        }
+
         Some(CidPrefix {
             version,
             codec,
